@@ -131,8 +131,13 @@ def strat_tilers(draw, tier):
 def exec_case(case):
     fmt = case["format"]
     with fresh_dir("c10-") as d:
-        progs = [child_program(d, fmt, ups) for ups in case["updaters"]]
-        run = GatedRun(progs)
+        fresh = bool(case.get("fresh_interpreters"))
+        if fresh:
+            # independently started jobs: every updater is a newly started interpreter (own hash seed, nothing inherited)
+            progs = [{"module": "vt.checks.c10", "func": "child_program", "args": [d, fmt, ups]} for ups in case["updaters"]]
+        else:
+            progs = [child_program(d, fmt, ups) for ups in case["updaters"]]
+        run = GatedRun(progs, fresh_interpreters=fresh)
         try:
             res = run.run(case["schedule"])
             errors = [(c.idx, c.error, [e for e in c.events if e.startswith("traceback")][-1:]) for c in run.children if c.error]
@@ -192,6 +197,8 @@ def exec_case(case):
             if os.path.exists(pio.tile_path(Pos(*p), makedirs=False) + ".lock"):
                 raise Violation("lock-file", f"{what}: lock file of tile {p} remains")
     cls = [fmt, f"updaters{len(progs)}", "overlap" if res["overlap_steps"] else "no-contention"]
+    if fresh:
+        cls.append("freshly-started-interpreters")
     if any(u["idiom"] == "direct" for ups in case["updaters"] for u in ups):
         cls.append("direct-buffer-write")
     return Outcome(classes=cls, nontrivial=res["overlap_steps"] > 0, info={"steps": res["steps"], "contended_steps": res["overlap_steps"]})
@@ -211,10 +218,109 @@ def strat(draw, tier):
                         "value": float(val), "idiom": draw(st.sampled_from(["image", "image", "direct"]))})
             val += 1
         ups.append(lst)
-    return {"format": draw(st.sampled_from(["npy", "fits"])), "updaters": ups, "schedule": draw(st.lists(st.integers(0, 11), max_size=120))}
+    case = {"format": draw(st.sampled_from(["npy", "fits"])), "updaters": ups, "schedule": draw(st.lists(st.integers(0, 11), max_size=120))}
+    if draw(st.sampled_from([False] * 11 + [True])):
+        case["fresh_interpreters"] = True
+    return case
+
+
+# ------------------------------------------------------------------ independent sampling jobs on one pyramid
+
+
+def sampler_field(spec, lon, lat):
+    """the sampler of one job: a constant inside a latitude band (everywhere when the band is the whole sphere), NaN elsewhere"""
+    v = np.full(np.shape(lon), np.nan, dtype=np.float32)
+    v[(lat >= spec["lat0"]) & (lat <= spec["lat1"])] = spec["value"]
+    return v
+
+
+def sampler_program(d, fmt, spec):
+    def prog():
+        from toasty import toast
+        from toasty.pyramid import PyramidIO
+
+        pio = PyramidIO(d, default_format=fmt)
+        only = tuple(SAMPLED_TILE)
+        toast.sample_layer_filtered(pio, lambda t: tuple(t.pos) == only or t.pos.n < only[0], lambda lon, lat: sampler_field(spec, lon, lat), only[0], parallel=1)
+
+    return prog
+
+
+SAMPLED_TILE = (1, 0, 1)
+
+
+def exec_samplers(case):
+    """2-3 independent filtered-sampling jobs (update mode) painting the same tile, gates ordered by a generated schedule;
+    the final tile must be the jobs' paintings applied one after another in the order of their completed writes"""
+    from toasty import toast
+    from toasty.pyramid import PyramidIO, Pos
+
+    fmt = case["format"]
+    with fresh_dir("c10s-") as d:
+        run = GatedRun([sampler_program(d, fmt, sp) for sp in case["jobs"]])
+        try:
+            res = run.run(case["schedule"])
+            errors = [(c.idx, c.error) for c in run.children if c.error]
+            order = list(run.order)
+        except RuntimeError as e:
+            raise HarnessError(str(e))
+        finally:
+            run.close()
+        what = f"{len(case['jobs'])} independent sample_layer_filtered jobs on tile {SAMPLED_TILE}, {fmt}, jobs {case['jobs']}"
+        if res["status"] == "deadlock":
+            raise Violation("dead-lock", f"{what}: every live job waits for a lock that nobody releases")
+        if res["status"] != "completed":
+            raise HarnessError("gated run inconclusive: " + res["status"])
+        if errors:
+            raise Violation("reader-sees-partial-tile", f"{what}: job {errors[0][0]} failed: {errors[0][1]}")
+        tile = toast.create_single_tile(Pos(*SAMPLED_TILE))
+        lon, lat = toast.toast_tile_get_coords(tile)
+        exp = np.full((256, 256), np.nan, dtype=np.float32)
+        writes = [ci for (ci, ev) in order if ev.startswith("write-done ")]
+        for ci in writes:
+            new = sampler_field(case["jobs"][ci], lon, lat)
+            exp = np.where(np.isnan(new), exp, new)
+        pio = PyramidIO(d, default_format=fmt)
+        path = pio.tile_path(Pos(*SAMPLED_TILE), makedirs=False)
+        if not os.path.exists(path):
+            if np.isfinite(exp).any():
+                raise Violation("lost-update", f"{what}: the tile does not exist after the jobs")
+            got = exp
+        elif fmt == "npy":
+            got = np.load(path)
+        else:
+            from astropy.io import fits
+
+            with fits.open(path) as hl:
+                got = np.array(hl[0].data)[::-1]
+        if not np.array_equal(got, exp, equal_nan=True):
+            lost = sorted(set(ci for ci in writes if not np.array_equal(np.where(np.isnan(sampler_field(case["jobs"][ci], lon, lat)), np.nan, got)[exp == case["jobs"][ci]["value"]], exp[exp == case["jobs"][ci]["value"]], equal_nan=True)))
+            raise Violation("lost-update", f"{what}: the final tile differs from the jobs' paintings applied one after another in write order {writes}; contributions of job(s) {lost} are missing or overwritten; step order {[(c, e.split(' ')[0]) for c, e in order if not e.startswith('traceback')][:40]}")
+    full = [j for j in case["jobs"] if j["lat0"] <= -1.6 and j["lat1"] >= 1.6]
+    cls = ["sampling-jobs", fmt, f"jobs{len(case['jobs'])}", "overlap" if res["overlap_steps"] else "no-contention"]
+    if full:
+        cls.append("a-job-covers-the-whole-tile")
+    return Outcome(classes=cls, nontrivial=res["overlap_steps"] > 0, info={"steps": res["steps"]})
+
+
+@st.composite
+def strat_samplers(draw, tier):
+    jobs = []
+    for i in range(draw(st.integers(2, 3))):
+        if draw(st.integers(0, 2)) == 0:
+            lat0, lat1 = -2.0, 2.0  # every pixel of the tile
+        else:
+            lat0 = draw(st.sampled_from([-2.0, -0.6, 0.0, 0.4]))
+            lat1 = draw(st.sampled_from([0.2, 0.7, 1.0, 2.0]))
+            if lat1 <= lat0:
+                lat1 = lat0 + 0.5
+        jobs.append({"lat0": lat0, "lat1": lat1, "value": float(i + 1)})
+    return {"format": draw(st.sampled_from(["npy", "fits"])), "jobs": jobs, "schedule": draw(st.lists(st.integers(0, 11), max_size=80))}
 
 
 PARTS = [
+    Part("gated_sampling_jobs", exec_samplers, strategy=strat_samplers, examples={"quick": 160, "thorough": 6000}, shards={"quick": 16, "thorough": 16},
+         budget_s={"quick": 60, "thorough": 1200}, engine="B (gated real processes, real SoftFileLock)", describe="2-3 independent sample_layer_filtered jobs (update mode) painting the same TOAST tile, gates ordered by a generated schedule"),
     Part("gated_tiler_jobs", exec_tilers, strategy=strat_tilers, examples={"quick": 96, "thorough": 4000}, shards={"quick": 16, "thorough": 16},
          budget_s={"quick": 60, "thorough": 1200}, engine="B (gated real processes, real SoftFileLock)", describe="two independent serial multi-TAN tiling jobs updating the same tile of one pyramid, gates ordered by a generated schedule"),
     Part("gated_updaters", exec_case, strategy=strat, examples={"quick": 480, "thorough": 30000}, shards={"quick": 16, "thorough": 16},
